@@ -132,6 +132,11 @@ def run(tier, seed):
         res.distinct_nontrivial = summary["nontrivial"]
         res.extra["cases_per_kind"] = summary["per_kind"]
         res.extra["mismatching_comparisons"] = summary["mismatching"]
+        res.extra["mismatches_per_what"] = summary["mismatches_per_what"]
+        # not a verdict: dd_to_iso_dm / dd_to_iso_dms results whose minutes or seconds group reads 60
+        # (e.g. -10060.0 for -1 deg 1 min): the number denotes the right angle, in an unusual spelling
+        res.extra["observation_encoder_group_reads_60"] = {
+            "comparisons": summary["encoder_group_reads_60"], "samples": summary["encoder_group_reads_60_samples"]}
     res.exhaustive = True
     res.rule = ("Containers: TLC enumerates every sequence of MaxOps writing calls (set_coord, set_xy, set_xyz, set_xyzt, stomp; "
                 "tuples: new, set_nth 0..5, set_xy, set_xyz, set_xyzt, fill, update with 0..5 values) over the value pool, for every "
@@ -159,6 +164,10 @@ def run(tier, seed):
         "Coor32 constructors: tolerance 1e-9 degree + binary32 rounding of the stored radians",
         "counts returned by the dm/dms operators are not compared here (C10)",
         "parse_sexagesimal: the forms D, D:M, D:M:S[.sss] with either a leading minus or one of N S E W (upper case) appended",
+        "results of dd_to_iso_dm / dd_to_iso_dms (and of dm/dms inverse) are judged by the angle they denote under the specification's decoder "
+        "(60 seconds = 1 minute): a result such as 10060.0 for 1 deg 1 min, produced when the binary64 degrees lie just below the exact angle, "
+        "denotes the right angle; whether the minutes/seconds group may read 60 is not documented, so it is counted "
+        "(observation_encoder_group_reads_60) but not judged",
     ]
     classify(res, fails)
     return res.finish()
